@@ -153,6 +153,18 @@ CLAIMED = {
              "through the cfg(simple_dns_verif) wrappers with empty / short / malformed / hostile datagrams against generated stores.",
         technique="Coq proof (composition of parser totality, store totality and the compressed round trip) + model/implementation correspondence on datagram pipelines",
         ref="DESIGN.md section 6, C14"),
+    "C15": dict(
+        text="PARTIAL. Kernel-checked theorems: for ANY instance description within DNS limits (instance_ok: addresses and ports in "
+             "range, distinct '='-free non-empty UTF-8 keys, entries <= 255 bytes, name fitting 255 bytes) and any header, the "
+             "records into_records produces, sent in a compressed packet, are parsed by the discoverer to records all of which "
+             "pass the ingest filter, and from_records on them returns the advertised instance (same name, addresses, ports and "
+             "attribute map with absent / empty / non-empty values distinguished; a TXT without strings crossing the wire as one "
+             "empty string is handled); the ingest filter keeps exactly the records that are not the discoverer's own and are "
+             "strictly below the watched service; unescape (escape s) = s for all byte strings. Sequences of announcements from "
+             "several peers, re-announcements and the store's grouping by owner are covered by the DISC slice (model vs "
+             "implementation with an independent python oracle for the reported set).",
+        technique="Coq proof (composition of the attribute / TXT round trip, the compressed packet round trip and the filter characterisation) + model/implementation correspondence on announcement sequences",
+        ref="DESIGN.md section 6, C15"),
     "C16": dict(
         text="Kernel-checked theorems: into_owned (modelled as a field-wise rebuild) is the identity and preserves the serialisation "
              "(short by nature); records that compare equal feed the hasher the same tokens (both use name, class, rdata); "
